@@ -2,9 +2,9 @@ PROPS = ["CTV.Props.C14"]
 HARNESS = [dict(pkg="./trillian/ctfe/", test="TestVerifC14", race=True, timeout=1500)]
 RULE = ("two logInfos (in-backend service; newIndirectIssuanceChainService(memStore, cache)) per cache configuration (noop; real LRU with size 0/1/2/1000 x TTL 1ms/1h) "
         "fed the same submissions: generated PKI chains with 0..4 intermediates, both entry types, root included or not, the root itself (leaf-only path), "
-        "synthetic certificates of boundary lengths (1,2,127,128,255,256,257,65535,65536, 2^24-1 once per thorough run) through the services' BuildLogLeaf, "
+        "synthetic certificates of boundary lengths (1,2,127,128,255,256,257,65535,65536, a 300 kB certificate once per thorough run) through the services' BuildLogLeaf, "
         "legacy full-chain leaves; every entry read through get-entries and get-entry-and-proof, faults injected at the k-th storage/cache call, stored chains "
-        "corrupted / deleted, junk extra data; concurrent writers and readers with random faults under -race; "
+        "corrupted (cut, extended, random, emptied, outer length shortened to an element boundary / longer than available, valid SEQUENCE + junk) / deleted, junk extra data; multi-entry ranges with faults and damage on non-first leaves; the history refused(storage fault) -> accepted -> eviction -> read; concurrent writers and readers with random faults under -race; "
         "non-trivial = distinct trace lines that were served 200 or stored a chain")
 TRUSTED = ["SHA-256 (the hash value is taken from the trace; the driver checks it is a function and injective on the run)",
            "hashicorp/golang-lru expirable LRU (its Get/Add are observed at the cache interface, not modelled)",
